@@ -107,7 +107,12 @@ def values_for(root, names, mode, r_abs):
     v["m"] = "%03o" % (rec.st_mode & 0o7777)
     v["y"] = LETTER[stat.S_IFMT(rec.st_mode)]
     if stat.S_ISLNK(lst.st_mode):
-        v["Y"] = LETTER[stat.S_IFMT(sres[1].st_mode)] if sres[0] == "ok" else ("N" if sres[0] == "nf" else "L")
+        # %Y agrees with -xtype: where the follow mode already resolves the link (it is not a link for -type any more), -xtype
+        # examines the link itself
+        if follow and sres[0] == "ok":
+            v["Y"] = "l"
+        else:
+            v["Y"] = LETTER[stat.S_IFMT(sres[1].st_mode)] if sres[0] == "ok" else ("N" if sres[0] == "nf" else "L")
         # %l like -lname: the link text only where the record the follow mode selects is the link's own
         v["l"] = os.readlink(full) if stat.S_ISLNK(rec.st_mode) else ""
     else:
@@ -142,10 +147,9 @@ def run(ctx):
             vals = values_for(root, ent, mode, r_abs)
             if vals is None:
                 continue
-            # known finding: %H (and %P's recomposition) for starting points spelled with a trailing slash or dot, below depth 0
-            if ent and root != root.rstrip("/.") and any(it[0] == "d" and it[1] in "H" for it in items):
-                continue
-            if ent and (root.endswith("//") or root.endswith("/.")) and any(it[0] == "d" and it[1] in "hP" for it in items):
+            # %h goes through Path::parent(), which drops a "/." in the middle: starting points ending in "/." are outside the
+            # property's list of spellings for %h
+            if ent and root.endswith("/.") and any(it[0] == "d" and it[1] in "h" for it in items):
                 continue
             # outside the property's quantifier (starting points ending in "/." or "/.."): %f/%h of the starting point itself
             if not ent and root.endswith("/.") and any(it[0] == "d" and it[1] in "fh" for it in items):
@@ -193,7 +197,7 @@ def path_values(ctx, forest, names, r_abs, spellings):
             path = root + ("" if (not ent or root.endswith("/")) else "/") + "/".join(ent)
             args = [root, "-mindepth", str(len(ent)), "-maxdepth", str(len(ent))] + (["-path", path] if ent else []) + ["-printf", "%f\\0%h\\0%H\\0%P\\0"]
             il.append("find - %s %s" % (fw.hexs(forest.dir), xc.hexlist([a.encode() for a in args])))
-            ml.append("pv %s %d" % (fw.hexs(path.encode()), len(ent)))
+            ml.append("pv %s %d" % (fw.hexs(path.encode()), len(root.encode())))
             keys.append((root, ent, path))
     impl = xc.run_impl(il)
     model = fw.run_lines(fw.FUVM, ml)
@@ -209,14 +213,14 @@ def path_values(ctx, forest, names, r_abs, spellings):
 
 
 def known(ctx, forest):
-    line = "find - %s %s" % (fw.hexs(forest.dir), xc.hexlist([b"r/", b"-path", b"r/dir", b"-printf", b"%H"]))
-    code, out, err = wc.decode_find(xc.run_impl([line])[0])
-    if out == b"r/":
-        return
-    if ctx.is_known("printf-H-trailing") and out == b"r":
-        ctx.known_finding("printf-H-trailing", "-printf %H below a starting point spelled with a trailing slash prints it without the slash ('r/' -> 'r')")
-    else:
-        ctx.violation("find r/ -path r/dir -printf %%H printed %r" % out, {"property": "C16", "kind": "known-class-changed", "output": out.decode()})
+    """the former known finding printf-H-trailing (repaired by 666b555), kept as a regression check"""
+    for root, want in ((b"r/", b"r/"), (b"r//", b"r//"), (b"r/.", b"r/.")):
+        line = "find - %s %s" % (fw.hexs(forest.dir), xc.hexlist([root, b"-path", root + (b"" if root.endswith(b"/") else b"/") + b"dir", b"-printf", b"%H"]))
+        code, out, err = wc.decode_find(xc.run_impl([line])[0])
+        ctx.count(("H-as-given", root), True, "H-as-given")
+        if out != want:
+            ctx.violation("find %s ... -printf %%H printed %r, the starting point as given is %r" % (root.decode(), out, want),
+                          {"property": "C16", "kind": "H-as-given", "starting_point": root.decode(), "output": out.decode()})
 
 
 def replay(ctx, rep):
